@@ -1,4 +1,5 @@
 import Model.C15.Types
+import Model.C08.Num
 /-
 C15 — script templates and static script size:
 `miniscript.py: Miniscript.script, _fragment_script, _leaf_fragment_script,
@@ -18,18 +19,9 @@ def pushData (d : Bytes) : Bytes :=
   else if d.length < 65536 then 77 :: (leBytes 2 d.length ++ d)
   else 78 :: (leBytes 4 d.length ++ d)
 
-/-- minimal little-endian magnitude of `n` (fuel ≥ number of bytes). -/
-def leMin : Nat → Nat → Bytes
-  | 0, _ => []
-  | fuel + 1, n => if n = 0 then [] else UInt8.ofNat (n % 256) :: leMin fuel (n / 256)
-
-/-- `utils.encode_num` on a natural number: magnitude little-endian, and a zero byte on top when
-    the top bit of the magnitude is taken (that bit being the sign). -/
-def encodeNum (n : Nat) : Bytes :=
-  let m := leMin n n
-  match m.getLast? with
-  | none => []
-  | some top => if top.toNat ≥ 128 then m ++ [0] else m
+/-- `utils.encode_num` on a natural number: C08's model of it (`Model/C08/Num.lean`, proved there to
+    be `CScriptNum::serialize` and inverted by `decode_num`). -/
+def encodeNum (n : Nat) : Bytes := Btc.Script.encodeNumRaw (n : Int)
 
 /-- `serialize([push_int(n)])`: the op code where the number has one, the CScriptNum push above. -/
 def pushNum (n : Nat) : Bytes :=
